@@ -596,11 +596,11 @@ class FTPFS(FS):
             tm_hour = int(time_text[8:10])
             tm_min = int(time_text[10:12])
             tm_sec = int(time_text[12:14])
+            epoch_time = calendar.timegm(
+                (tm_year, tm_month, tm_day, tm_hour, tm_min, tm_sec)
+            )
         except ValueError:
             return None
-        epoch_time = calendar.timegm(
-            (tm_year, tm_month, tm_day, tm_hour, tm_min, tm_sec)
-        )
         return epoch_time
 
     @classmethod
